@@ -122,6 +122,9 @@ def k_seq(run, case):
     for k in range(1, n):
         if arr["t"][k] <= arr["t"][k - 1]:
             arr["t"][k] = arr["t"][k - 1] + 1e-3
+    if rng.random() < .12:
+        # time relative to an event in the middle of the recording: stamps before it are negative
+        arr["t"] = arr["t"] - (arr["t"][n // 2] + 0.25)
     if (rng.random() < .12 or case.get("long_way")) and n >= 3:
         # long way travelled before slow motion: the first pose at a local origin, the rest in a
         # map frame (UTM-like) with millimetre steps; or a long drive followed by standstill jitter
